@@ -317,18 +317,22 @@ func (e *Engine) runHarness(h *ssa.Function) *SchedInfo {
 		}
 		arrivals = map[*Gor][]*Config{}
 		for _, g := range e.gors {
-			// explosion guard: when a goroutine accumulates many resting configs, ask the solver which of
-			// them are feasible at all under the scheduling constraints collected so far
+			// explosion guard: when a goroutine accumulates many resting configs, ask the solver whether each is
+			// feasible at all under the scheduling constraints (in parallel on a pool of solver processes)
 			if e.settleFeas > 0 && len(g.order) > e.settleFeas {
+				var cs []*Config
+				var gs []*Term
 				for _, k := range g.order {
 					c := g.rest[k]
-					if c == nil || c.g.IsFalse() || c.feasChecked == len(e.constraints) {
+					if c == nil || c.g.IsFalse() {
 						continue
 					}
-					if !e.feasibleWith(c.g) {
-						c.g = TS.False
-					} else {
-						c.feasChecked = len(e.constraints)
+					cs = append(cs, c)
+					gs = append(gs, c.g)
+				}
+				for i, ok := range e.feasibleBatch(gs) {
+					if !ok {
+						cs[i].g = TS.False
 					}
 				}
 			}
@@ -540,6 +544,10 @@ type SchedEntry struct {
 	Auto  bool   `json:"auto"`
 	Wake  bool   `json:"wake"` // second phase of cond.Wait: consumed natively by the wrapped Locker's Lock
 	Sel   bool   `json:"sel"`  // a select: the native controller waits a little so that timers/tickers are ready
+	// identity of the goroutine (see Gor): lets the native controller tell apart goroutines running the same code
+	Parent int    `json:"parent"`
+	Site   string `json:"site"`
+	Occ    int    `json:"occ"`
 }
 
 // scheduleEntries lists the fired transitions under a model for the native replay controller.
@@ -550,7 +558,12 @@ func (e *Engine) scheduleEntries(si *SchedInfo, model map[string]uint64) []Sched
 		if Eval(fr.Fire, model, memo) != 0 {
 			wake := fr.Phase > 0 && strings.Contains(fr.Op, "(*sync.Cond).Wait")
 			auto := !wake && (fr.Phase > 0 || strings.Contains(fr.Pos, "zz_verif_ab_rt_common.go") || !strings.Contains(fr.Pos, ".go:"))
-			out = append(out, SchedEntry{Pos: fr.Pos, Phase: fr.Phase, Gor: fr.Idx, Auto: auto, Wake: wake, Sel: strings.HasPrefix(fr.Op, "select")})
+			se := SchedEntry{Pos: fr.Pos, Phase: fr.Phase, Gor: fr.Idx, Auto: auto, Wake: wake, Sel: strings.HasPrefix(fr.Op, "select")}
+			if fr.Idx >= 0 && fr.Idx < len(e.gors) {
+				g := e.gors[fr.Idx]
+				se.Parent, se.Site, se.Occ = g.parent, g.site, g.occ
+			}
+			out = append(out, se)
 		}
 	}
 	return out
